@@ -1,5 +1,5 @@
 (* Properties_C16.v — a resolver reports exactly the valid addresses of its host. *)
-From QV Require Import Base Fields SrcFacts Msg SrcDecisions Cache Sim SimProofs Prober Resolver ResolverProofs ResolverInv.
+From QV Require Import Base Fields SrcFacts Msg SrcDecisions Cache Sim SimProofs Prober Resolver ResolverProofs ResolverInv CacheSpec CacheProofs ResolverAccept.
 Local Open Scope Z_scope.
 
 (* PARTIAL.  Proved on the model: the shape of the initial query, soundness of the reports caused by responses
@@ -79,3 +79,41 @@ Example C16_nonvacuous :
   let r := set_addr (A4 1) (set_ttl 120 (set_type 1 (set_name (Some [104]%N) default_record))) in
   spec_reports (Some [104]%N) [r; r] [] = [A4 1].
 Proof. vm_compute. reflexivity. Qed.
+
+(* ------------------------------------------------------------------ the whole property, over whole runs
+   Resolver.mon_resolver is the acceptor written from the text of C16; it keeps its own reference RFC 6762 cache and
+   rejects when - the creation question is not exactly the A + AAAA question for the name listing exactly the valid
+   cached address records (1), - an address is reported that no valid record supports, or a due report is missing or
+   out of order: the addresses of the unexpired cached records at creation, then each received address with nonzero
+   TTL not reported before (2), - an address is reported twice because of repeated responses (3), - the cache content
+   seen by lookups differs from the reference: received address records must be stored, goodbyes must withdraw (6).
+   For EVERY script of cache additions, resolver creations (with a name), lookups, delivered messages and exact or
+   "before" advances (TTLs up to 2 000 000 s, jitter 0..19, no fuel exhaustion) it accepts the run of the model of
+   resolver.cpp + cache.cpp under the virtual-time kernel. *)
+Theorem C16_every_run_is_accepted fuel ops :
+  Forall rop_ok ops -> no_fuel_exhaustion (res_run fuel ops) -> mon_resolver ops (res_run fuel ops) = None.
+Proof. exact (res_run_accepted fuel ops). Qed.
+Print Assumptions C16_every_run_is_accepted.
+
+(* the acceptor is not vacuous: it accepts the real run below and rejects the same run when the address received in
+   the response is not reported, and when the cached address is reported twice *)
+Example C16_acceptor_discriminates :
+  let h := Some [104; 46]%N in
+  let a k := set_addr (A4 k) (set_ttl 120 (set_type 1 (set_name h default_record))) in
+  let resp := mkMessage (A4 9) 5353 0 true false [] [a 2%N; a 2%N] in
+  let ops := [AApi (RCadd (a 1%N) 7); AApi (RNew h); AAdv 0; ADeliver resp] in
+  let sig k := OSignal 0 OBJ SIG_resolved (PAddr (A4 k)) in
+  Forall rop_ok ops /\ no_fuel_exhaustion (res_run 50 ops) /\
+  concat (skipn 2 (res_run 50 ops)) = [sig 1%N; sig 2%N] /\
+  mon_resolver ops (firstn 3 (res_run 50 ops) ++ [[]]) = Some (3%N, 2%N) /\
+  mon_resolver ops (firstn 2 (res_run 50 ops) ++ [[sig 1%N; sig 1%N]; [sig 2%N]]) <> None.
+Proof.
+  cbv zeta. split; [|split; [|split; [|split]]].
+  - repeat apply Forall_cons; try apply Forall_nil; cbn [rop_ok]; try exact I; try discriminate.
+    all: try (split; [unfold ttl_ok; vm_compute; discriminate|lia]).
+    all: repeat apply Forall_cons; try apply Forall_nil; unfold ttl_ok; vm_compute; discriminate.
+  - unfold no_fuel_exhaustion. vm_compute. intros [H|[H|[H|[]]]]; discriminate.
+  - vm_compute. reflexivity.
+  - vm_compute. reflexivity.
+  - vm_compute. discriminate.
+Qed.
